@@ -35,12 +35,16 @@ Proj(st) ==
                                                    read |-> st.subs[t][u].read, recv |-> st.subs[t][u].recv, delId |-> st.subs[t][u].delId]]],
    msgs   |-> [t \in Topics |-> [i \in DOMAIN st.msgs[t] |-> [seq |-> st.msgs[t][i].seq, from |-> st.msgs[t][i].from,
                                                               delId |-> st.msgs[t][i].delId, content |-> st.msgs[t][i].content]]],
+   dlog   |-> [t \in Topics |-> [i \in DOMAIN st.dlog[t] |-> [delId |-> st.dlog[t][i].delId, for |-> st.dlog[t][i]["for"],
+                                                              low |-> st.dlog[t][i].low, hi |-> st.dlog[t][i].hi]]],
    cache  |-> [t \in Topics |-> ProjCache(st.cache[t])],
    sess   |-> [s \in Sessions |-> [live |-> st.sess[s].live, subs |-> SelectSeq(st.sess[s].subs, LAMBDA x : x \in Topics)]]]
 
 \* message content is logged as JSON text: "\"c1\"" ; the request carries the bare string
 Quoted(c) == "\"" \o c \o "\""
 
+\* a {meta} reply is a successful answer
+ReplyCode(rec) == IF "code" \in DOMAIN rec.reply THEN rec.reply.code ELSE 200
 Frames(rec, s) == rec.frames[s]
 DataFrames(rec, s) == SelectSeq(Frames(rec, s), LAMBDA f : f.k = "data")
 ObsReal(rec) ==
@@ -50,13 +54,18 @@ ObsReal(rec) ==
               THEN SelectSeq(Frames(rec, a.s), LAMBDA f : f.k \in {"ctrl", "meta"} /\ f.id = rec.rid) ELSE <<>>
       anyReply == IF "s" \in DOMAIN a /\ a.s \in Sessions
                   THEN SelectSeq(Frames(rec, a.s), LAMBDA f : f.k = "ctrl" /\ f.code >= 300) ELSE <<>>
-  IN [code |-> rep.code,
+  IN [code |-> ReplyCode(rec),
       nack |-> IF rec.rid # "" THEN Len(mine) ELSE Len(anyReply),
       data |-> UNION {{[s |-> s, seq |-> DataFrames(rec, s)[i].seq, from |-> DataFrames(rec, s)[i].from,
                         content |-> DataFrames(rec, s)[i].content] : i \in DOMAIN DataFrames(rec, s)} : s \in Sessions},
       ndata |-> [s \in Sessions |-> Len(DataFrames(rec, s))],
       push |-> {ToSet(rec.push[i].to) : i \in {j \in DOMAIN rec.push : rec.push[j].what = "msg"}},
-      ackSeq |-> IF rep.k = "ctrl" /\ "seq" \in DOMAIN rep.params THEN rep.params.seq ELSE 0]
+      ackSeq |-> IF rep.k = "ctrl" /\ "seq" \in DOMAIN rep.params THEN rep.params.seq ELSE 0,
+      ackDel |-> IF rep.k = "ctrl" /\ "del" \in DOMAIN rep.params THEN rep.params.del ELSE 0,
+      delmeta |-> UNION {{[s |-> s, clear |-> Frames(rec, s)[i].del.clear,
+                           ids |-> UNION {IdsOf([low |-> Frames(rec, s)[i].del.delseq[j][1], hi |-> Frames(rec, s)[i].del.delseq[j][2]]) :
+                                          j \in DOMAIN Frames(rec, s)[i].del.delseq}]
+                          : i \in {x \in DOMAIN Frames(rec, s) : Frames(rec, s)[x].k = "meta" /\ "del" \in DOMAIN Frames(rec, s)[x]}} : s \in Sessions}]
 
 \* the request as the model sees it: message content compared in its logged (JSON text) form
 ModelAct(a) == a
@@ -77,9 +86,10 @@ Diverge(k) ==
           ELSE (IF r.st.topics # post.topics THEN {"topics"} ELSE {})
                \cup (IF r.st.subs # post.subs THEN {"subs"} ELSE {})
                \cup (IF r.st.msgs # post.msgs THEN {"msgs"} ELSE {})
+               \cup (IF r.st.dlog # post.dlog THEN {"dlog"} ELSE {})
                \cup (IF r.st.cache # post.cache THEN {"cache"} ELSE {})
                \cup (IF r.st.sess # post.sess THEN {"sess"} ELSE {})
-               \cup (IF r.out.code # rec.reply.code THEN {"code"} ELSE {})
+               \cup (IF r.out.code # -2 /\ r.out.code # ReplyCode(rec) THEN {"code"} ELSE {})
 
 Init == cur = 0 /\ bad = {} /\ div = {}
 Next == \E j \in 1..16 :
